@@ -35,7 +35,7 @@ def excPyName : Exc → String
   | .boom => "Boom" | .keyboardInterrupt => "KeyboardInterrupt"
   | .ret => "Ret" | .brk => "Brk" | .diverge => "Diverge"
 
-inductive Target | render | validate | write
+inductive Target | render | validate | write | resolve
 deriving DecidableEq, Repr
 
 inductive Owner | lib | caller
@@ -114,8 +114,11 @@ deriving DecidableEq, Repr
 inductive Act
   /-- `_get_render_data_(iteration=…)`; the new object's id is `nObjs` -/
   | newData (owner : Owner) (iteration held : Bool)
-  /-- the size validation of `_init_render_` -/
+  /-- one comparison of the size validation of `_init_render_` (width, then — unless scrolling is
+      allowed — height) -/
   | validate
+  /-- `padding.resolve(terminal_size)` of a relative `AlignedPadding` -/
+  | resolvePad
   /-- `renderable._render_(render_data, render_args)` -/
   | render (d : Nat)
   /-- `output.write(…)` -/
@@ -143,6 +146,7 @@ def apply : Act → World → World
     ({ w with nObjs := w.nObjs + 1 }.setObj w.nObjs fun _ => { owner := o, iteration := it, held := h }).log
       (.create w.nObjs)
   | .validate, w => w
+  | .resolvePad, w => w
   | .render d, w =>
     (w.setObj d fun o =>
       { o with renders := o.renders + 1, usedAfter := o.usedAfter + (if o.finalized then 1 else 0) }).log
@@ -170,6 +174,7 @@ def apply : Act → World → World
 def target : Act → Option Target
   | .render _ => some .render
   | .validate => some .validate
+  | .resolvePad => some .resolve
   | .write => some .write
   | _ => none
 
@@ -182,6 +187,7 @@ def inj : Target → Exc → Prop
   | .render, e => e = .boom ∨ e = .stopIteration ∨ e = .keyboardInterrupt ∨ e = .attributeError
   | .validate, e => e = .sizeError
   | .write, e => e = .boom ∨ e = .keyboardInterrupt
+  | .resolve, e => e = .boom
 
 abbrev P := Prog Act Exc World
 
@@ -194,19 +200,34 @@ def finalizeP (d : Nat) (b : By) : P :=
 
 /-! ## `Renderable._init_render_` -/
 
-/-- `renderer` receives the id of the new data object -/
-def initRender (iteration finalize checkSize : Bool) (renderer : Nat → P) : P :=
+/-- `renderer` receives the id of the new data object. `owner`: whose data this is when
+    `finalize = False` hands it back un-finalized (the library's own `draw`/`RenderIterator`, or the
+    code of a subclass that called `_init_render_` itself). `relPad`: the padding is a relative
+    `AlignedPadding`. -/
+def initRender (owner : Owner) (iteration finalize checkSize allowScroll relPad : Bool)
+    (renderer : Nat → P) : P :=
   .get fun w =>
     let d := w.nObjs
-    .act (.newData .lib iteration false) <|
+    .act (.newData owner iteration false) <|
       .tryFinally
-        (.seq (if checkSize then .do .validate else .done) (renderer d))
+        (.seq (if relPad then .do .resolvePad else .done) <|
+         .seq (if checkSize then
+                 .seq (.do .validate) (if allowScroll then .done else .do .validate)
+               else .done)
+           (renderer d))
         (if finalize then finalizeP d .lib else .done)
 
-/-- `Renderable.render()` / `__str__` -/
+/-- `Renderable.render()` / `__str__` (no padding to resolve, no size validation) -/
 def renderP : P :=
-  initRender Generated.initRenderIterationDefault Generated.initRenderFinalizeDefault
-    Generated.initRenderCheckSizeDefault fun d => .do (.render d)
+  initRender .lib Generated.initRenderIterationDefault Generated.initRenderFinalizeDefault
+    Generated.initRenderCheckSizeDefault Generated.initRenderAllowScrollDefault false fun d => .do (.render d)
+
+/-- an operation defined by a subclass that calls the extension point itself:
+    `self._init_render_(self._render_, None, padding, iteration=…, finalize=…, check_size=…,
+    allow_scroll=…)`. With `finalize=False` the data stays the subclass's. -/
+def initRenderOpP (iteration finalize checkSize allowScroll relPad : Bool) : P :=
+  initRender (if finalize then .lib else .caller) iteration finalize checkSize allowScroll relPad
+    fun d => .do (.render d)
 
 /-! ## `RenderIterator` -/
 
@@ -232,7 +253,8 @@ def iterNewP (loops : Int) (cache : CacheArg) : P :=
   .seq (initChecks loops cache) <|
     .get fun w =>
       let d := w.nObjs
-      .seq (initRender true false Generated.initRenderCheckSizeDefault fun _ => .done)
+      .seq (initRender .lib true false Generated.initRenderCheckSizeDefault
+              Generated.initRenderAllowScrollDefault false fun _ => .done)
         (.do (.newIter d true (loopOf w.fc loops) (infOf w.fc loops) (cachedOf w.fc cache)))
 
 /-- `RenderIterator._from_render_data_` -/
@@ -384,7 +406,9 @@ def drawP (animate checkSize : Bool) (loops : Int) (cache : CacheArg) (bound : N
   .get fun w =>
     let d := w.nObjs
     let animation := w.fc ≠ 1 && animate
-    .seq (initRender animation false (animation || checkSize) fun _ => .done) <|
+    -- `allow_scroll=not animation and allow_scroll` with draw's default `allow_scroll=False`;
+    -- draw's default padding `AlignedPadding(0, -2)` is relative
+    .seq (initRender .lib animation false (animation || checkSize) false true fun _ => .done) <|
       .tryFinally
         (if animation then animateP d loops cache bound
          else
@@ -396,6 +420,8 @@ def drawP (animate checkSize : Bool) (loops : Int) (cache : CacheArg) (bound : N
 
 inductive Op
   | render
+  /-- a subclass operation built on `_init_render_` -/
+  | initRender (iteration finalize checkSize allowScroll relPad : Bool)
   | draw (animate checkSize : Bool) (loops : Int) (cache : CacheArg) (bound : Nat)
   | iterNew (loops : Int) (cache : CacheArg)
   /-- the caller: `data = renderable._get_render_data_(iteration=…)` -/
@@ -433,6 +459,7 @@ def valid (w : World) : Op → Bool
 
 def opProg : Op → P
   | .render => renderP
+  | .initRender it fin cs asc rp => initRenderOpP it fin cs asc rp
   | .draw a cs l c b => drawP a cs l c b
   | .iterNew l c => iterNewP l c
   | .mkData it => .do (.newData .caller it true)
